@@ -1528,4 +1528,61 @@ theorem foldl_stepI_st (env : Env) (d : Deco) (fired : List Fired) (s : ISt) :
   | cons f rest ih => simp only [List.foldl_cons]; rw [ih, stepI_st]
 
 
+/-! ### configuration glue -/
+
+theorem applyEntry_name (dflt : Bool) (r : Rule) (e : ConfEntry) : (applyEntry dflt r e).name = r.name := by
+  unfold applyEntry; split <;> rfl
+
+theorem foldl_applyEntry_name (dflt : Bool) (es : List ConfEntry) (r : Rule) :
+    (es.foldl (applyEntry dflt) r).name = r.name := by
+  induction es generalizing r with
+  | nil => rfl
+  | cons e rest ih => simp only [List.foldl_cons]; rw [ih, applyEntry_name]
+
+theorem applyConfig_name (c : Config) (r : Rule) : (applyConfig c r).name = r.name := by
+  unfold applyConfig; rw [foldl_applyEntry_name]
+
+theorem configure_name (cs : List Config) (r : Rule) : (configure cs r).name = r.name := by
+  unfold configure
+  induction cs generalizing r with
+  | nil => rfl
+  | cons c rest ih => simp only [List.foldl_cons]; rw [ih, applyConfig_name]
+
+/-- `enabled` after the entries: the last matching entry decides, otherwise what it was -/
+def lastEnabled (dflt : Bool) (cname : Str) (cur : Bool) : List ConfEntry → Bool
+  | [] => cur
+  | e :: rest => lastEnabled dflt cname (if entryMatches e cname then e.enabled.getD dflt else cur) rest
+
+theorem foldl_applyEntry_enabled (dflt : Bool) (es : List ConfEntry) (r : Rule) :
+    (es.foldl (applyEntry dflt) r).enabled = lastEnabled dflt r.name r.enabled es := by
+  induction es generalizing r with
+  | nil => rfl
+  | cons e rest ih =>
+    simp only [List.foldl_cons, lastEnabled]
+    rw [ih, applyEntry_name]
+    unfold applyEntry
+    split <;> rfl
+
+theorem lastEnabled_append (dflt : Bool) (cname : Str) (cur : Bool) (es : List ConfEntry) (e : ConfEntry) :
+    lastEnabled dflt cname cur (es ++ [e]) =
+      if entryMatches e cname then e.enabled.getD dflt else lastEnabled dflt cname cur es := by
+  induction es generalizing cur with
+  | nil => simp [lastEnabled]
+  | cons x rest ih => simp only [List.cons_append, lastEnabled]; exact ih _
+
+theorem lastEnabled_no_match (dflt : Bool) (cname : Str) (cur : Bool) (es : List ConfEntry)
+    (h : ∀ e ∈ es, entryMatches e cname = false) : lastEnabled dflt cname cur es = cur := by
+  induction es generalizing cur with
+  | nil => rfl
+  | cons x rest ih =>
+    simp only [lastEnabled, h x (by simp), Bool.false_eq_true, if_false]
+    exact ih _ (fun e he => h e (List.mem_cons_of_mem _ he))
+
+
+theorem lastEnabled_append_list (dflt : Bool) (cname : Str) (cur : Bool) (a b : List ConfEntry) :
+    lastEnabled dflt cname cur (a ++ b) = lastEnabled dflt cname (lastEnabled dflt cname cur a) b := by
+  induction a generalizing cur with
+  | nil => rfl
+  | cons x rest ih => simp only [List.cons_append, lastEnabled]; exact ih _
+
 end IV.Rules
